@@ -740,11 +740,15 @@ where
                             member.incarnation() == incarnation
                         })
                     {
+                        let apply_successful = summary.apply_successful;
                         self.handle_apply_summary(summary, as_down, true, &mut runtime)?;
                         // Member went down we might need to adjust our internal state
                         self.adjust_connection_state(&mut runtime);
 
-                        if self.config.notify_down_members {
+                        // Only when the timeout actually took effect: a member that
+                        // refuted the suspicion (or was replaced by a newer identity)
+                        // is not being declared down
+                        if apply_successful && self.config.notify_down_members {
                             // As a courtesy, we send a lightweight message to the member
                             // we're declaring down so that if it manages to receive it,
                             // it can react accordingly
